@@ -592,6 +592,10 @@ pub fn run(p: &Params) -> Outcome {
             ctx.count_n("small_scope_triples", small.len() as u64);
         }
         for i in 0..(n_random / slices) {
+            if ctx.saturated() {
+                ctx.count("stopped_early_after_20000_violations");
+                break;
+            }
             let (s, g, c) = random_triple(&mut rng, &table);
             let case = Case { n, s: &s, g: &g, c: &c };
             check_case(ctx, &mut rng, &case, perms, mix(seed ^ 0xABCD, (j as u64) << 24 | i as u64));
